@@ -194,3 +194,17 @@ Theorem C01_regex_count_zero_iff : forall re text,
   re_count re text = 0%N <-> re_has_match re text = false.
 Proof. exact re_count_zero_iff. Qed.
 Print Assumptions C01_regex_count_zero_iff.
+
+(* Params.Cmds never replaces a command of the standard set *)
+Theorem C01_builtin_shadows_custom : forall cfg name k,
+  In name script_cmd_names -> ~ In name (c_main_cmds cfg) ->
+  assoc_kind (c_cmds cfg) name = Some k ->
+  lookup_cmd cfg name = Some (CBuiltin name).
+Proof. exact builtin_shadows_custom. Qed.
+Print Assumptions C01_builtin_shadows_custom.
+
+Theorem C01_custom_reached_iff : forall cfg name k,
+  lookup_cmd cfg name = Some (CCustom k) <->
+  ~ In name (c_main_cmds cfg) /\ ~ In name script_cmd_names /\ assoc_kind (c_cmds cfg) name = Some k.
+Proof. exact custom_reached_iff. Qed.
+Print Assumptions C01_custom_reached_iff.
